@@ -348,9 +348,24 @@ def r2b_key_path_decor(rep, facts):
               f'that text again as a non-last segment of `[a.b]`', facts.loc(b))
     rep.check(R, 'key::key|prefix-from-first', okp, 'leaf prefix = text before the first segment', 'the leaf prefix is no longer taken from the first segment of the dotted key', facts.loc(b))
     rep.check(R, 'key::key|suffix-from-last', oks, 'leaf suffix = text after the last segment', 'the leaf suffix is no longer taken from the last segment of the dotted key', facts.loc(b))
-    # writers
+    # writers: decided on the writer events of paths of 1..3 segments (which decor is written around which key, see R2's segments-and-dots); the
+    # reading of the receivers below is the fallback when the functions cannot be evaluated
+    traced = None
+    try:
+        from .shared import encode_traces, expected_encode_trace
+        from .den import Unanalysable as _UN
+        traced = encode_traces(facts)
+    except (_UN, KeyError, IndexError, TypeError):
+        traced = None
     for d in ('toml_edit::encode::encode_key_path', 'toml_edit::encode::encode_key_path_ref'):
         b = facts.body(d)
+        if traced is not None:
+            fn = last_seg(d)
+            badn = [n for n in (1, 2, 3) if traced[(fn, n)] != expected_encode_trace(fn, n)]
+            rep.check(R, f'{fn}|decor-sources', not badn, 'leaf decor of the last key around the whole path, dotted decor of each segment around its dot (paths of 1..3 segments)',
+                      f'`{fn}`: a path of {badn[0] if badn else "?"} segments is written as {traced.get((fn, badn[0])) if badn else ""}'
+                      ' — whitespace of headers / dotted keys is printed from a different key than the parser stored it on', facts.loc(b))
+            continue
         lets = _lets(b['body'])
         params = set(param_names(b))
         leaf = dotted = 0
